@@ -336,6 +336,16 @@ def run_reset_applied(ctx: Ctx, n: int):
             keep = {"block": {"paragraph"}, "inline": {"text"}, "core": {"normalize", "block", "inline", "text_join"}, "inline2": set()}[chain]
             pre_disabled = [r for r in allr[chain] if r not in keep]
             md.disable(pre_disabled, True)
+        # a rule name that lives in two chains (emphasis / strikethrough: inline + inline2; linkify: core + inline) switched in
+        # one of them only, through the ruler-level API: "as on entry" is per chain, not per name
+        skew = []
+        if rng.random() < 0.35:
+            for chain_name, ruler, name, op in rng.sample([("inline2", md.inline.ruler2, "emphasis", "disable"), ("inline", md.inline.ruler, "emphasis", "disable"),
+                                                          ("inline2", md.inline.ruler2, "strikethrough", "enable"), ("inline", md.inline.ruler, "strikethrough", "enable"),
+                                                          ("inline2", md.inline.ruler2, "strikethrough", "disable"), ("inline", md.inline.ruler, "linkify", "enable")],
+                                                         rng.randint(1, 2)):
+                getattr(ruler, op)(name, True)
+                skew.append((chain_name, name, op))
         for p_ in PROBES:
             md.render(p_)                      # warm caches
         before = [md.render(p_) for p_ in PROBES]
@@ -395,6 +405,8 @@ def run_reset_applied(ctx: Ctx, n: int):
                     twin = MarkdownIt(preset)
                     if pre_disabled:
                         twin.disable(pre_disabled, True)
+                    for chain_name, name, op in skew:
+                        getattr({"inline": twin.inline.ruler, "inline2": twin.inline.ruler2}[chain_name], op)(name, True)
                     for p_ in RULE_PROBES:
                         try:
                             if md.render(p_) != twin.render(p_):
@@ -406,7 +418,8 @@ def run_reset_applied(ctx: Ctx, n: int):
                     ctx.mismatch("a reset_rules block left state behind (compiled chains / attributes differ from entry)",
                                  {"preset": preset, "body": repr(body2)[:400], "differences": dd})
         if what:
-            ctx.fail("reset-not-restored", what, {"preset": preset, "body": repr(body2)[:600], "outcome": out, "input": extra_input})
+            ctx.fail("reset-not-restored", what, {"preset": preset, "body": repr(body2)[:600], "outcome": out, "input": extra_input,
+                                                  "before_the_block": [list(x) for x in skew]})
 
 
 def run(ctx: Ctx) -> None:
